@@ -1939,6 +1939,11 @@ class MindsDBParser(Parser):
     def raw_query(self, p):
         return p[0] + [p._slice[1], p._slice[2]]
 
+    @_('LPAREN RPAREN')
+    def raw_query(self, p):
+        # an empty pair that is first in the query or first in its group: `(()`, `() union ..`
+        return [p._slice[0], p._slice[1]]
+
     @_('raw_query raw_query')
     def raw_query(self, p):
         return p[0] + p[1]
